@@ -361,7 +361,14 @@ pub fn assemble(rng: &mut Rng, ty: u16, tid: u128, n_ord: usize, tail: &str) -> 
     }
     for ch in tail.chars() {
         match ch {
-            'i' => msg.extend(tlv(MI, &rng.bytes(20), 0)),
+            'i' => {
+                let mut v = rng.bytes(20);
+                if rng.chance(1, 3) {
+                    // the last 8 value bytes look like a FINGERPRINT attribute (type, length 4, value)
+                    v[12..16].copy_from_slice(&[0x80, 0x28, 0x00, 0x04]);
+                }
+                msg.extend(tlv(MI, &v, 0))
+            }
             'j' => {
                 let n = *rng.pick(&[16usize, 20, 24, 28, 32]);
                 msg.extend(tlv(MI256, &rng.bytes(n), 0))
@@ -490,6 +497,13 @@ pub fn gen_parse(c: &mut Ctx, out: &mut Vec<String>) {
         let msg = assemble_rand(c.rng, n_ord, &tail);
         out.push(format!("msg op=parse b={}{}", hex(&msg), c.trace()));
         out.push(format!("msg op=hdr b={}", hex(&msg[..20])));
+        if c.rng.chance(1, 4) && msg.len() > 20 {
+            // declared length zero (or a few bytes) in front of a full body
+            let mut m = msg.clone();
+            m[2] = 0;
+            m[3] = *c.rng.pick(&[0u8, 0, 4, 8]);
+            out.push(format!("msg op=parse b={}", hex(&m)));
+        }
         for d in [-8i64, -4, -1, 1, 4, 8] {
             if c.rng.chance(1, 3) {
                 let mut m = msg.clone();
@@ -708,6 +722,26 @@ pub fn gen_validate(c: &mut Ctx, out: &mut Vec<String>) {
         let last = m2.len() - 1;
         m2[last] ^= 1;
         out.push(format!("msg op=validate b={} cred={}", hex(&m2), cred));
+        // orders the builder cannot produce, with EVERY integrity attribute correct for the key:
+        // [.., MI-SHA256, MI] (the MI is hidden, SHA-256 decides) with and without a fingerprint
+        if [16usize, 20, 24, 28, 32].contains(&n) {
+            let mut m3 = msg.clone();
+            let newlen = m3.len() - 20 + 24;
+            m3[2] = (newlen >> 8) as u8;
+            m3[3] = newlen as u8;
+            let mac1 = MessageIntegrity::compute(&m3, &key).unwrap();
+            m3.extend(tlv(MI, &mac1, 0));
+            out.push(format!("msg op=validate b={} cred={}", hex(&m3), cred));
+            out.push(format!("msg op=parse b={}", hex(&m3)));
+            let mut m4 = m3.clone();
+            push_fp(&mut m4, true);
+            out.push(format!("msg op=validate b={} cred={}", hex(&m4), cred));
+            // the same with the SHA-1 value corrupted: SHA-256 still decides
+            let mut m5 = m3.clone();
+            let l5 = m5.len() - 2;
+            m5[l5] ^= 0x10;
+            out.push(format!("msg op=validate b={} cred={}", hex(&m5), cred));
+        }
     }
 }
 
